@@ -169,3 +169,14 @@ func VerifDir(db *DB) string { return db.dir }
 // engine leaves them running; a harness that opens thousands of DBs in one
 // process must not).
 func VerifStopOracle(db *DB) { db.oracle.Stop() }
+
+// VerifAbandon gives up a DB handle without closing it (a harness that only read
+// from a recovered directory): the watermark goroutines are stopped and the wal
+// file descriptor of the active memtable is released; nothing on disk changes.
+func VerifAbandon(db *DB) {
+	db.oracle.Stop()
+	db.mu.RLock()
+	mt := db.memtable
+	db.mu.RUnlock()
+	_ = mt.wal.Close()
+}
